@@ -236,14 +236,14 @@ func main() {
 		ls.ProjectToWGS84(tile)
 		for i, l := range single {
 			l.ProjectToWGS84(tile)
-			if !orb.Equal(l.Features[0].Geometry, ls[i].Features[0].Geometry) {
+			if !refgeom.Equal(l.Features[0].Geometry, ls[i].Features[0].Geometry) {
 				c.Failf("layers-plural", "tile %v extents %v: Layers.ProjectToWGS84 gives %v for layer %d, Layer.ProjectToWGS84 gives %v", tile, seq, ls[i].Features[0].Geometry, i, l.Features[0].Geometry)
 				return
 			}
 		}
 		ls.ProjectToTile(tile)
 		for i, l := range ls {
-			if want := px(seq[i]); !orb.Equal(l.Features[0].Geometry, want) {
+			if want := px(seq[i]); !refgeom.Equal(l.Features[0].Geometry, want) {
 				c.Failf("layers-plural", "tile %v extents %v: layer %d comes back as %v after Layers.ProjectToWGS84 / ProjectToTile, want %v", tile, seq, i, l.Features[0].Geometry, want)
 				return
 			}
